@@ -10,7 +10,7 @@ class C12(PropBase):
     extractors = ["trans"]
     rule = ("schedules of reader runs (segments of 1..40 lines) and silences for 2-5 aircraft; silence lengths delete_after-0.5, "
             "+0.5, 0.5 and 10x delete_after (virtual clock: the time stamps of all rows are shifted back between runs); "
-            "delete_after in {1,5,60,600}; every format as the refreshing frame; -U on/off; a quarter of the schedules with the table display on and a refresh after every frame. After each run: key set and "
+            "delete_after in {1,5,60,600}; every format as the refreshing frame; -U on/off; a quarter of the schedules with the table display on and a refresh after every frame, the others with refresh intervals -1, 3, 7, 1e5, 2^62 s (on both sides of delete_after). After each run: key set and "
             "last-contact ages against a reference that knows only when each aircraft was last heard, and against the model. "
             "Non-trivial = a schedule in which at least one aircraft expires or survives by less than a second; distinct by schedule.")
     assumptions = ["chrono wall clock is simulated by shifting the public time-stamp fields (DESIGN 4.3); margins of 0.5 s"]
@@ -25,7 +25,7 @@ class C12(PropBase):
             # the refresh path shares the counters with the sweep and must not disturb it
             show = (c % 4 == 1)
             ops = ["reset", gen.cfg_op(use_update=u, relaxed=bool(c % 3 == 0), delete_after=da, show=show,
-                                       update=(-1 if c % 8 == 1 else 0) if show else -1)]
+                                       update=(-1 if c % 8 == 1 else 0) if show else rng.choice([-1, 3, 7, 100000, 2 ** 62]))]
             t = 0                       # virtual ms
             last = {}                   # addr -> time last heard
             removed_ok = {}             # addr -> True once a sweep that must remove it has happened
